@@ -77,6 +77,7 @@ def fileStep (s : Store) (v : View) (h : Handle) : FOp → Store × View × Hand
         if h.om &&& omWrite == 0 then (s, v, h, .err .EBADF) else
         if b.isEmpty then (s, v, h, .ok (.num 0 [])) else
         let pos := if h.om &&& omAppend != 0 then d.length else h.pos.toNat
+        if pos + b.length > maxFileSize then (s, v, h, .err .EINVAL) else     -- the file would grow beyond the maximum size
         let d' := writeData d pos b
         (s.set i (.file { m with mtime := none } d' nl id), v, { h with pos := (pos + b.length : Nat) }, .ok (.num b.length []))
       | _ => (s, v, h, .err .EBADF)
@@ -90,6 +91,7 @@ def fileStep (s : Store) (v : View) (h : Handle) : FOp → Store × View × Hand
       | some (.file m d nl id) =>
         if h.om &&& omWrite == 0 then (s, v, h, .err .EBADF) else
         if b.isEmpty then (s, v, h, .ok (.num 0 [])) else
+        if off.toNat + b.length > maxFileSize then (s, v, h, .err .EINVAL) else
         (s.set i (.file { m with mtime := none } (writeData d off.toNat b) nl id), v, h, .ok (.num b.length []))
       | _ => (s, v, h, .err .EBADF)
   | .seek off whence =>
@@ -101,12 +103,12 @@ def fileStep (s : Store) (v : View) (h : Handle) : FOp → Store × View × Hand
       | some (.file _ d _ _) =>
         let size : Int := d.length
         if whence == 0 then
-          if off < 0 then (s, v, h, .err .EINVAL) else (s, v, { h with pos := off }, .ok (.num off []))
+          if off < 0 || off > 9223372036854775807 then (s, v, h, .err .EINVAL) else (s, v, { h with pos := off }, .ok (.num off []))
         else if whence == 1 then
-          if h.pos + off < 0 then (s, v, h, .err .EINVAL)
+          if h.pos + off < 0 || h.pos + off > 9223372036854775807 then (s, v, h, .err .EINVAL)    -- int64 wrap-around
           else (s, v, { h with pos := h.pos + off }, .ok (.num (h.pos + off) []))
         else if whence == 2 then
-          if size + off < 0 then (s, v, h, .err .EINVAL)
+          if size + off < 0 || size + off > 9223372036854775807 then (s, v, h, .err .EINVAL)
           else (s, v, { h with pos := size + off }, .ok (.num (size + off) []))
         else (s, v, h, .err .EINVAL)
       | _ => (s, v, h, .ok (.num 0 []))
@@ -115,7 +117,7 @@ def fileStep (s : Store) (v : View) (h : Handle) : FOp → Store × View × Hand
     match h.nd with
     | none => (s, v, h, .err .closed)
     | some i =>
-      if size < 0 then (s, v, h, .err .EINVAL) else
+      if size < 0 || size > maxFileSize then (s, v, h, .err .EINVAL) else
       match s.get i with
       | some (.file m d nl id) =>
         if h.om &&& omWrite == 0 then (s, v, h, .err .EINVAL) else
@@ -161,7 +163,7 @@ def fileStep (s : Store) (v : View) (h : Handle) : FOp → Store × View × Hand
     | none => (s, v, h, .err .closed)
     | some i =>
       match s.get i with
-      | some (.dir _ _) => (s, { v with cwd := h.name }, h, .ok .unit)
+      | some (.dir _ _) => (s, { v with cwd := abs .linux h.name v.cwd }, h, .ok .unit)
       | _ => (s, v, h, .err .ENOTDIR)
   | .close =>
     match h.nd with
